@@ -4,7 +4,7 @@ cd "$(dirname "$0")/engine" && PATH=/opt/veriftools/go1.26.8/bin:$PATH GOTOOLCHA
 cd /verif
 for p in C01 C02 C03 C04 C05 C07 C08 C09 C10 C11 C12 C13 C14 C15 C16 C17 C18 C19 C20; do
   start=$(date +%s)
-  /verif/bin/hv.thorough check $p --tier thorough > /tmp/thorough_$p.log 2>&1
+  VERIF_EVIDENCE_DIR=/tmp/evidence_thorough /verif/bin/hv.thorough check $p --tier thorough > /tmp/thorough_$p.log 2>&1
   rc=$?
   echo "$p exit=$rc wall=$(( $(date +%s) - start ))s $(grep -c VIOLATION /tmp/thorough_$p.log) violations $(grep -c INCONCLUSIVE /tmp/thorough_$p.log) inconclusive"
 done
